@@ -232,7 +232,7 @@ func runC10Glue(ctx *core.Ctx) {
 	for i := 0; i < ctx.Pick(1, 8); i++ {
 		m := genValidModel(r)
 		for _, e := range edits {
-			for _, pl := range []string{"main", "override", "extends", "include", "include-split"} {
+			for _, pl := range []string{"main", "override", "extends", "include", "include-split", "include-nested", "include-extends"} {
 				l, ok := applyEdit(m, e, pl)
 				if !ok {
 					continue
